@@ -110,3 +110,9 @@ func init() {
 		Old: "\t\treturn append(rules, r.exact...)\n\t}\n", New: "\t\treturn append(append(rules, r.rules...), r.exact...)\n\t}\n",
 		Expect: "collects-every-level", Why: "wildcard rules returned where the name ends"})
 }
+
+func init() {
+	control(&Control{ID: "tokencharset-plus-separator", Rule: "TOKEN-CHARSET", File: "larking/negotiate.go",
+		Old: "isSeparator := strings.ContainsRune(\" \\t\\\"(),/:;<=>?@[]\\\\{}\", rune(c))", New: "isSeparator := strings.ContainsRune(\" \\t\\\"(),/:;<=>?@[]\\\\{}+\", rune(c))",
+		Expect: "token-class", Why: "'+' classed as a separator"})
+}
